@@ -810,6 +810,7 @@ func genericHandle(a action, root action, queue chan action, sem *tsync.Semaphor
 		}
 	}
 
+	verifYield("handle.exec")
 	if !a.IsFailed() {
 		if err := exec(a); err != nil {
 			a.MarkFailed()
@@ -821,6 +822,7 @@ func genericHandle(a action, root action, queue chan action, sem *tsync.Semaphor
 	}
 
 	for _, t := range a.Triggers() {
+		verifYield("handle.trigger")
 		if t.DecrementPending() {
 			queue <- t
 		}
@@ -1053,6 +1055,7 @@ func (r *subrunner) runAnalyzers(pkgAct *packageAction, pkg *loader.Package) (an
 		close(queue)
 	}
 	for item := range queue {
+		verifYield("analyzers.dispatch")
 		b := r.semaphore.AcquireMaybe()
 		if b {
 			go genericHandle(item, root, queue, &r.semaphore, ar.do)
